@@ -14,7 +14,8 @@ EXTRA = {"C18-a": ["C13"], "C01-b": ["C07"], "C07-a": ["C01"], "C12-b": ["C05"],
          "C10-j": ["C03"],      # ESRCH for an already reaped worker during reload: a SIGCHLD interleaving only engine K (C03) owns
          "C05-g": ["C13"], "C06-j": ["C13"],
          "C10-l": ["C03"],
-         "C07-n": ["C06", "C13"]}     # the gthread blocking-mode regression again: a worker-level segmentation matter (C06 real slice, C13 engine T)      # surplus workers picked by pid instead of age: only visible when the pid counter wraps (engine K)
+         "C07-n": ["C06", "C13"],
+         "C12-m": ["C06"]}     # at-limit request line refused only for a read boundary between CR and LF: inside C12's 2-byte band, a segmentation matter     # the gthread blocking-mode regression again: a worker-level segmentation matter (C06 real slice, C13 engine T)      # surplus workers picked by pid instead of age: only visible when the pid counter wraps (engine K)
 
 
 _baseline = {}
